@@ -23,6 +23,7 @@ type raceReport struct {
 	Kinds   [2]string
 	Harness bool
 	Text    string
+	Destroy bool // one of the accesses happens inside Client.Destroy (publication of new credentials)
 }
 
 func parseRaces(stderr string) []raceReport {
@@ -46,6 +47,9 @@ func parseRaces(stderr string) []raceReport {
 			if strings.HasPrefix(ln, "Goroutine ") {
 				idx = 2 // creation stacks are not accesses
 				continue
+			}
+			if idx >= 0 && idx <= 1 && strings.Contains(ln, gokrb5Prefix+"client.(*Client).Destroy(") {
+				rep.Destroy = true
 			}
 			if idx < 0 || idx > 1 || rep.Funcs[idx] != "" {
 				continue
@@ -77,7 +81,11 @@ func (r raceReport) signature() string {
 	}
 	p := []string{a, b}
 	sort.Strings(p)
-	return "race|" + p[0] + "|" + p[1]
+	sig := "race|" + p[0] + "|" + p[1]
+	if r.Destroy && !strings.Contains(sig, "Destroy") {
+		sig += "|inside client.(*Client).Destroy"
+	}
+	return sig
 }
 
 // applyRaces folds the race reports of a child into its result.
